@@ -863,6 +863,10 @@ func validBomb(api string, mib int, container string) ([]byte, int, bool) {
 func checkBytes(c Case) pbt.Result {
 	payload, inflated, ok := frame(c)
 	if ok && c.Framing == "valid-bomb" {
+		// The logout validators read the real clock.  On a heavily loaded machine signing, deflating and validating a
+		// multi-megabyte message can take a while; a day of allowed age keeps the "otherwise valid" premise of this
+		// case true however slow the process is (fix.Reset restores the library's own value for the next case).
+		saml.MaxIssueDelay = 24 * time.Hour
 		payload, inflated, ok = validBomb(c.API, c.BombMiB, c.Container)
 	}
 	if !ok {
